@@ -65,6 +65,8 @@ def obj_binary(name):
         return lambda x: onemax(x) + 1e12
     if name == "offset6":  # integer-valued, differences of 1 in 1e6 (within numpy.isclose's default tolerance)
         return lambda x: onemax(x) + 1e6
+    if name == "inf":     # the best values are infinite (1/error with error 0, log(0)): +inf above, -inf below
+        return lambda x: np.where(onemax(x) >= 7, np.inf, np.where(onemax(x) <= 2, -np.inf, onemax(x)))
     raise KeyError(name)
 
 
@@ -85,6 +87,8 @@ def obj_float(name):
         return lambda x: np.sum(np.asarray(x, dtype=np.float64), axis=1) * 3.0 + 11.0
     if name == "offset":
         return lambda x: np.round(sphere(x) * 8.0) / 8.0 + 1e12
+    if name == "inf":
+        return lambda x: np.where(sphere(x) >= 9.0, np.inf, np.where(sphere(x) <= 1.5, -np.inf, sphere(x)))
     raise KeyError(name)
 
 
@@ -119,6 +123,8 @@ def obj_tree(name):
         return lambda trees: size(trees) + 1e12
     if name == "offset6":
         return lambda trees: size(trees) + 1e6
+    if name == "inf":
+        return lambda trees: np.where(size(trees) >= 11, np.inf, np.where(size(trees) <= 2, -np.inf, size(trees)))
     raise KeyError(name)
 
 
@@ -336,7 +342,7 @@ def driver_op(rec: Recorder) -> dict:
     return {
         "op": "ea_run", "iters": cfg["iters"], "pop_size": cfg["pop_size"], "elitism": bool(cfg.get("elitism", True)),
         "minimization": bool(cfg.get("minimization", False)), "keep_history": bool(cfg.get("keep_history", True)),
-        "floor": C.float_key(-math.inf), "aim": None if math.isinf(aim) else C.float_key(aim),
+        "floor": C.float_key(-math.inf), "aim": C.float_key(aim),   # no optimal_value: aim = +inf, reached only by an infinite fitness
         "no_inc": cfg.get("no_increase_num"), "g2p": g2p, "obj": obj,
         "flavour": "greedy" if rec.cls_name in GREEDY else "gen",
         "init": rec.g_batches[0], "batches": rec.g_batches[1:],
@@ -400,6 +406,11 @@ def configs(tier: str, seed: int, classes=None, extra_stop=True):
         combos.append(dict(objective="asym", elitism=False, minimization=True, g2p="same", init=True))
         combos.append(dict(objective="plateau", elitism=True, minimization=False, g2p=False, init=False, buffered=True))
         combos.append(dict(objective=objs[0], elitism=False, minimization=True, g2p=False, init=False, buffered=True))
+        # exact fitness ties together with a non-identity g2p (a tying trial replaces genotype AND phenotype); infinite best values
+        combos.append(dict(objective="plateau", elitism=True, minimization=False, g2p="same", init=False))
+        combos.append(dict(objective="ties", elitism=False, minimization=True, g2p="same", init=False))
+        combos.append(dict(objective="inf", elitism=True, minimization=False, g2p=False, init=False))
+        combos.append(dict(objective="inf", elitism=False, minimization=True, g2p=False, init=False))
         if tier == "thorough":
             for o in objs:
                 for el in (True, False):
